@@ -111,7 +111,8 @@ class ParCons(RankAggAlgorithm, PairwiseBasedAlgorithm):
                 if len(scc_i) > self._bound_for_exact:
                     cons_ext = self._auxiliary_alg.compute_consensus_rankings(
                         sub_problem, scoring_scheme, True).consensus_rankings[0]
-                    res.extend(cons_ext)
+                    # the sub-problem may have re-encoded its elements: use the elements of the input dataset
+                    res.extend(ParCons._ranking_with_elements_of(cons_ext, set_current_elements))
                     optimal = False
                 else:
                     # the exact sub-solver uses cplex if available, the free solver otherwise
@@ -122,7 +123,7 @@ class ParCons(RankAggAlgorithm, PairwiseBasedAlgorithm):
                         exact_alg: RankAggAlgorithm = ExactAlgorithmPulp()
                     cons_ext = exact_alg.compute_consensus_rankings(
                         sub_problem, scoring_scheme, True).consensus_rankings[0]
-                    res.extend(cons_ext)
+                    res.extend(ParCons._ranking_with_elements_of(cons_ext, set_current_elements))
 
         hash_information = {
             ConsensusFeature.ASSOCIATED_ALGORITHM: self.get_full_name(),
